@@ -1,0 +1,45 @@
+//go:build verif
+
+// Contracts for the verif framework (/verif). Comment-only: this file
+// declares nothing and is compiled only with -tags=verif.
+
+package main
+
+// txtar-x (C15): the archive that was parsed is extracted with txtar.Write into the
+// directory given by -C, and a failure of Write ends in exit status 1.
+//@ ghost var gWriteErr Int
+//@ extern flag.Parse()
+//@   pure
+//@ extern flag.NArg() (r)
+//@   pure
+//@ extern flag.Arg(i) (r)
+//@   pure
+//@ extern log.SetPrefix(p)
+//@   pure
+//@ extern log.SetFlags(f)
+//@   pure
+//@ extern log.Printf(format, v)
+//@   pure
+//@ extern log.Print(v)
+//@   pure
+//@ extern io.ReadAll(r) (data, err)
+//@   modifies new bytes
+//@ extern os.Exit(code)
+//@   noreturn
+//@ extern github.com/rogpeppe/go-internal/txtar.Parse(data) (a)
+//@   modifies new F_S_txtar_Archive_*, new H_*
+//@   ensures a != nil && fresh(a)
+//@ extern github.com/rogpeppe/go-internal/txtar.ParseFile(file) (a, err)
+//@   modifies new F_S_txtar_Archive_*, new H_*
+//@   ensures err == nil ==> a != nil && fresh(a)
+//@ extern github.com/rogpeppe/go-internal/txtar.Write(a, dir) (err)
+//@   modifies fs*, fd*, failBudget, gCleanup
+//@ func usage
+//@   trusted
+//@   noreturn
+//@ func main
+//@   modifies all
+//@   at call txtar.Write#1: requires a != nil && fresh(a) && dir == C_Str[extractDir]
+//@   at call txtar.Write#1: bind gWriteErr = err
+//@   at call os.Exit#3: requires code == 1 && gWriteErr != nil
+//@   ensures gWriteErr == nil
